@@ -1,6 +1,7 @@
 package main
 
 import (
+	"go/types"
 	"strings"
 
 	"golang.org/x/tools/go/ssa"
@@ -189,4 +190,66 @@ func edgeHasAtom(fi *FnInfo, from, to *ssa.BasicBlock, atom string) bool {
 		}
 	}
 	return false
+}
+
+// tryInlineResult expands result #idx of a call to an unexported in-repository helper
+// returning several values ("(x, err)") when every return that yields a non-zero x
+// yields the same expression of the helper's parameters.
+func (tm *Termer) tryInlineResult(c *ssa.Call, idx int) *Term {
+	if c.Call.IsInvoke() {
+		return nil
+	}
+	fn := c.Call.StaticCallee()
+	if fn == nil || fn.Blocks == nil || fn.Pkg == nil || !strings.HasPrefix(fn.Pkg.Pkg.Path(), modPath) {
+		return nil
+	}
+	if len(fn.Name()) == 0 || (fn.Name()[0] >= 'A' && fn.Name()[0] <= 'Z') {
+		return nil // exported API stays opaque: rules attach to it by name
+	}
+	res := fn.Signature.Results()
+	if idx >= res.Len() || res.Len() < 2 {
+		return nil
+	}
+	switch res.At(idx).Type().Underlying().(type) {
+	case *types.Pointer, *types.Interface, *types.Slice, *types.Map:
+	default:
+		return nil
+	}
+	env := map[*ssa.Parameter]*Term{}
+	for i, p := range fn.Params {
+		if i < len(c.Call.Args) {
+			env[p] = tm.Of(c.Call.Args[i])
+		}
+	}
+	sub := &Termer{w: tm.w, fn: fn, env: env, depth: tm.depth + 1, visited: map[ssa.Value]bool{}, cache: map[ssa.Value]*Term{}, Inline: true}
+	var only *Term
+	for _, b := range fn.Blocks {
+		for _, in := range b.Instrs {
+			r, ok := in.(*ssa.Return)
+			if !ok {
+				continue
+			}
+			v := RetVal(r, idx)
+			if v == nil {
+				return nil
+			}
+			if k, isConst := v.(*ssa.Const); isConst && (k.IsNil() || k.Value == nil) {
+				continue
+			}
+			t := sub.Of(v)
+			// only pass-through results: the helper hands on what another call produced
+			// (e.g. "cs, found := k.GetClientState(..); ...; return cs, nil"); values the
+			// helper builds itself keep the helper's name
+			switch t.Op {
+			case "extract", "call", "invoke":
+			default:
+				return nil
+			}
+			if only != nil && only.String() != t.String() {
+				return nil
+			}
+			only = t
+		}
+	}
+	return only
 }
